@@ -40,6 +40,12 @@ func (o *verifOut) line(cs string, op string, obs string, tags ...string) {
 	fmt.Fprintf(o.w, "%s\t%s\t%s\t%s\n", cs, op, obs, strings.Join(tags, ","))
 }
 
+func (o *verifOut) flush() {
+	o.mu.Lock()
+	defer o.mu.Unlock()
+	o.w.Flush()
+}
+
 func (o *verifOut) close() {
 	o.mu.Lock()
 	defer o.mu.Unlock()
